@@ -52,13 +52,18 @@ def apply_inputs(circ: sim.Circuit, prog: lang.Program, valuation: dict, inputs_
     return missing
 
 
-def observe(circ: sim.Circuit, name: str):
+def observe(circ: sim.Circuit, name: str, lines=None):
     """(advertised signal, {signal: value}) for a named result, or None if it is not labelled.
 
     A named result is exposed either through its '(output anchor)' combinator (read the
     network at the anchor) or, when the producer is a constant combinator, by that combinator.
     """
     anchors = [e for e in circ.entities.values() if e.desc["name"] == name and e.desc["op"] == "output anchor"]
+    if lines:
+        # same-named function / loop locals: prefer the entities on the lines of the declaration that is meant
+        labelled = [e for e in circ.entities.values() if e.desc["name"] == name]
+        if any(e.desc["line"] in lines for e in labelled):
+            anchors = [e for e in anchors if e.desc["line"] in lines]
     if len(anchors) == 1:
         a = anchors[0]
         return a.desc["signal"], circ.read_input(a.num), "anchor"
@@ -66,6 +71,8 @@ def observe(circ: sim.Circuit, name: str):
         return None
     consts = [e for e in circ.entities.values() if e.kind == "const" and e.desc["name"] == name
               and e.desc["op"] != "output anchor"]
+    if lines and any(e.desc["line"] in lines for e in consts):
+        consts = [e for e in consts if e.desc["line"] in lines]
     if len(consts) == 1:
         return consts[0].desc["signal"], consts[0].const_signals(), "const"
     return None
